@@ -219,6 +219,18 @@ def run(ctx):
                                         "c": ev["c"]}))
 
     # ---- 3. universe: pairs, triples, copies ------------------------------
+    if not quick:
+        # every ordered same-kind pair of the small universe
+        rs = ctx.tlc("CimEqGen", "CimEqGen.cfg", workers=1, count=False,
+                     label="enumeration: small universe (all pairs bound)")
+        small = {k: {} for k in KINDS}
+        for v in rs.printed("OBJ"):
+            small[v[1]][v[2]] = tlc_value_to_node(v[3])
+        for k in KINDS:
+            for i in sorted(small[k]):
+                for j in sorted(small[k]):
+                    add_pair(small[k][i], small[k][j], "universe:allpairs")
+        ctx.extra["all_pairs_bound_on_small_universe"] = len(pairs)
     for k in KINDS:
         ids = sorted(objs[k])
         for i in ids:
@@ -263,8 +275,8 @@ def run(ctx):
 
     # ---- 5. seeded random rich objects ------------------------------------
     g = H.RichGen(rng)
-    nrich = 14 if quick else 160
-    nwalk = 3 if quick else 25
+    nrich = 14 if quick else 400
+    nwalk = 3 if quick else 60
     for k in KINDS:
         for i in range(nrich):
             n = g.make(k)
@@ -320,6 +332,13 @@ def run(ctx):
     ctx.extra["skipped"] = dict(SKIPPED)
     ctx.extra["observed_eq_histogram"] = {
         t: sum(1 for v in pairs if v.event["eab"] == t) for t in "TFE"}
+    ctx.exhaustive = True
+    ctx.extra["exhaustive_scope"] = (
+        "TLC: all same-kind pairs of the bounded universe (CimEqMC) and all "
+        "copy/mutate behaviours of the heap model (CimEqHeap); binding: "
+        "every near pair, every heap behaviour" +
+        ("" if quick else ", every ordered pair of the small universe") +
+        "; far pairs, triples and rich objects are seeded samples")
     ctx.extra["constants"] = {
         "universe": "2 base names x 2 cases, optional names None|n1|n1'|n2, "
                     "attributes None|v1|v2 (flags None|True|False), <=2 "
@@ -421,11 +440,11 @@ def replay(rep):
     print("re-observed event:")
     print(json.dumps({k: v for k, v in ev.items()
                       if k not in ("a", "b", "c", "o")}, indent=1)[:3000])
-    ctx = vlib.Ctx("C05replay", rep.get("tier", "quick"), rep.get("seed", 0))
+    ctx = vlib.Ctx("C05_replay", "quick", rep.get("seed", 0))
     vd = ctx.validate_traces("CimEqTrace", "CimEqTrace.cfg", [[ev]])[0]
     if vd["ok"]:
         print("TLC accepts the re-observed vector: not reproduced")
         return 0
     print("TLC rejects the re-observed vector: %s" % ", ".join(vd["clauses"]))
-    print("VIOLATION property=C05 replay=(this file)")
+    print("VIOLATION property=C05 replay=(reproduced) %s" % vd["clauses"])
     return 1
